@@ -15,10 +15,12 @@ Tie to /repo (harness/cmd/mutex, real commservices/mutex.SharedMutex built with 
   * `markBoolMapForNamespace` (rlock/wlock parsing) reached through the exported pipc.Run and compared
     with the Lean function.
 """
+import fcntl
 import glob
 import os
 import re
 import threading
+import time
 
 import lib
 
@@ -137,10 +139,11 @@ def _minimise_sched(ctx, go, model, op):
     head, _, acts = op.partition(" | ")
     acts = acts.split()
     cnt = [0]
+    t0 = time.time()
 
     def fails(cand):
         cnt[0] += 1
-        if cnt[0] > 60:
+        if cnt[0] > 60 or time.time() - t0 > 90:
             return False
         o = head + " | " + " ".join(cand)
         r, _, crash = _run_impl(ctx, go, [o], "min%d" % cnt[0])
@@ -208,12 +211,38 @@ def _oracle(ctx, go, n):
     return fails
 
 
+def _regenerate_facts(ctx, go):
+    """structural tie (DESIGN 1.4): go/ast skeleton of Lock/Unlock/runGo of the repository under test ->
+    Goat/Tie/ExtractedC15.lean (rewritten only when it changes, under the build lock)"""
+    out = ctx.path("ExtractedC15.lean")
+    rc, err = ctx.run([go, "facts", ctx.repo], stdout=out)
+    if rc != 0:
+        ctx.fatal("fact extraction failed: " + err[-500:])
+    new = open(out).read()
+    dst = os.path.join(lib.LEAN, "Goat", "Tie", "ExtractedC15.lean")
+    with open(os.path.join(lib.LEAN, ".check.lock"), "w") as lock:
+        fcntl.flock(lock, fcntl.LOCK_EX)
+        try:
+            old = open(dst).read() if os.path.exists(dst) else ""
+            if old != new:
+                tmp = dst + ".tmp%d" % os.getpid()
+                open(tmp, "w").write(new)
+                os.replace(tmp, dst)
+        finally:
+            fcntl.flock(lock, fcntl.LOCK_UN)
+    ctx.extra["facts_extracted"] = new.count("\n  \"")
+
+
 def run(ctx):
-    failed = ctx.lean_obligations()
     go = ctx.build_go("mutex")
+    _regenerate_facts(ctx, go)
+    failed = ctx.lean_obligations()
+    cmd = ctx.checker_cmd
+    failed += ctx.lean_obligations(props_module="Goat.Tie.C15")   # audited separately: a moved skeleton
+    ctx.checker_cmd = cmd.replace("Goat.Props.C15 &&", "Goat.Props.C15 Goat.Tie.C15 &&")  # fails tie_* only
     model = ctx.build_model("m_mutex")
-    n_rand = ctx.pick(6000, 120000)
-    n_oracle = ctx.pick(1600, 40000)
+    n_rand = ctx.pick(20000, 300000)
+    n_oracle = ctx.pick(4000, 60000)
     ctx.rule = ("corpus + %d generated ops from VERIF_SEED: 40%% gated schedules (2-6 holders, pools of 1-3 names, maps "
                 "in shuffled order, random gate-opening actions), 20%% stress (2-16 holders, pools of 1-6 names, 1-30 "
                 "iterations), 10%% overlap gates (2-5 mutually compatible holders + bystanders), 10%% lockstep rounds "
@@ -229,7 +258,8 @@ def run(ctx):
     ctx.log("running %d ops on the implementation (%d shards) and on the model" % (len(ops), SHARDS))
     impl, trace, crash = _run_impl(ctx, go, ops, "main")
     mod = _run_model(ctx, model, ops, "main")
-    ctx.evaluations += sum(1 for r in impl if r is not None)
+    ctx.evaluations += sum(1 for r in impl if r is not None and r != "skipped")
+    ctx.extra["skipped_after_hangs"] = sum(1 for r in impl if r == "skipped")
     concrete_found = False
     if crash:
         i, err = crash
@@ -253,7 +283,7 @@ def run(ctx):
     # --- line-by-line comparison
     mism = []
     for i, (o, a, b) in enumerate(zip(ops, impl, mod)):
-        if a is None:
+        if a is None or a == "skipped":
             continue
         for f in _features(o, a):
             ctx.histogram[f] += 1
@@ -273,9 +303,13 @@ def run(ctx):
                           annotations=["impl: " + a, "model: " + b], concrete=True)
             continue
         mo = o
+        ann = ["impl: " + a, "model: " + b]
         if _kind(o) == "sched":
             mo = _minimise_sched(ctx, go, model, o)
-        ann = ["impl: " + a, "model: " + b]
+            if mo != o:
+                ra, _, _ = _run_impl(ctx, go, [mo], "minfinal")
+                ann = ["original op: " + o, "impl: " + (ra[0] or "crash"),
+                       "model: " + _run_model(ctx, model, [mo], "minfinal")[0]]
         if _kind(o) in CONC:
             found = _search(ctx, go, model, o.split(" ")[1], "search%d" % i)
             if found:
@@ -308,7 +342,7 @@ def run(ctx):
             return bool(deep)
         ctx.obligation_violations(failed, searcher=searcher)
     if not ctx.quick():
-        ctx.leanchecker(["Goat.Props.C15"])
+        ctx.leanchecker(["Goat.Props.C15", "Goat.Tie.C15"])
         if any(not o["ok"] for o in ctx.obligations) and not failed:
             ctx.obligation_violations([o for o in ctx.obligations if not o["ok"]])
     ctx.assumptions += [
@@ -319,6 +353,9 @@ def run(ctx):
         "Lock calls are outside the property",
     ]
     ctx.trusted_base += [
+        "go/ast fact extractor (harness/cmd/mutex facts): syntactic skeleton of SharedMutex.Lock, unlockHandler.Unlock and "
+        "Runner.runGo compared with the model's assumptions by `decide` (tie_mutex_sorted, tie_mutex_unlock, "
+        "tie_runner_brackets)",
         "Go runtime goroutine dump (wait reasons sync.Mutex.Lock / sync.RWMutex.Lock / sync.RWMutex.RLock) used to observe "
         "that a holder is blocked, and the harness gate scheduler built on verifhook.Yield(\"mutex.acquire\")",
     ]
@@ -336,7 +373,7 @@ def replay(ctx, path):
             print("monitor", v)
             rc |= v != "accept"
             continue
-        reps = 1 if _kind(o) in ("sched", "locks") else 20
+        reps = 1 if _kind(o) == "locks" else (8 if _kind(o) == "sched" else 20)
         for k in range(reps):
             impl, trace, crash = _run_impl(ctx, go, [o], "rp")
             m = _run_model(ctx, model, [o], "rp")[0]
